@@ -43,7 +43,7 @@ var c06Positions = []struct{ name, src string }{
 }
 
 // routes by which the sandboxed template reaches the position
-var c06Routes = []string{"direct", "include", "include-only", "include-with", "extends", "import-macro", "from-macro", "parent-block", "local-macro", "nested-include-2"}
+var c06Routes = []string{"direct", "include", "include-only", "include-with", "extends", "import-macro", "from-macro", "parent-block", "local-macro", "nested-include-2", "import-toplevel", "from-toplevel"}
 
 func c06Templates(route, pos string) map[string]string {
 	t := map[string]string{"show": "{{ v }}"}
@@ -73,6 +73,13 @@ func c06Templates(route, pos string) map[string]string {
 		t["lib"] = "{% macro mac(x, xs) %}" + pos + "{% endmacro %}"
 	case "local-macro":
 		t["box"] = "{% macro mac(x, xs) %}" + pos + "{% endmacro %}[{{ mac(x, xs) }}]"
+	case "import-toplevel":
+		// the library's own top-level code runs while it is imported: inside the sandbox too
+		t["box"] = "[{% import 'lib' as L %}{{ L.ok() }}]"
+		t["lib"] = "{% set x = 'libval' %}{% set xs = ['p', 'q'] %}{% set t = true %}{% set f = false %}{% set zero = 0 %}{% set plainmap = {'k': 1} %}" + pos + "{% macro ok() %}ok{% endmacro %}"
+	case "from-toplevel":
+		t["box"] = "[{% from 'lib' import ok %}{{ ok() }}]"
+		t["lib"] = "{% set x = 'libval' %}{% set xs = ['p', 'q'] %}{% set t = true %}{% set f = false %}{% set zero = 0 %}{% set plainmap = {'k': 1} %}" + pos + "{% macro ok() %}ok{% endmacro %}"
 	case "nested-include-2":
 		t["box"] = "[{% include 'mid' %}]"
 		t["mid"] = "{% include 'inner' only %}{% include 'inner' %}"
@@ -84,13 +91,13 @@ func c06Templates(route, pos string) map[string]string {
 func runC06(e *Env) error {
 	r := e.Rep
 	rg := e.Rng
-	r.Rule = "a template rendered through `include … sandboxed` reaches a forbidden spy filter/function written in each of 24 syntactic positions through each of 10 routes (direct, nested includes with/without only/with, extends, parent(), import/from macros, local macro, two-level nesting) — all 240 combinations — plus random policies and random programs using spy filters; " +
+	r.Rule = "a template rendered through `include … sandboxed` reaches a forbidden spy filter/function written in each of 24 syntactic positions through each of 12 routes (direct, nested includes with/without only/with, extends, parent(), import/from macros, local macro, two-level nesting, the top-level code of an imported library) — all 288 combinations, the sandboxed include tag itself rotating through 8 option forms — plus random policies and random programs using spy filters; " +
 		"oracles (implementation-only): a forbidden callback is never invoked and the render fails with a security violation; the same program with the callback allowed renders; the including template outside the sandbox may call the same callback; plus the Lean pipeline (incl. trace of invocations); " +
 		"non-trivial = every case (each has a sandbox boundary and a forbidden callback); distinct by template set + policy"
 	ctx := map[string]any{"x": "val", "xs": []interface{}{"p", "q"}, "t": true, "f": false, "zero": 0, "nul": nil, "plainmap": map[string]interface{}{"k": 1}}
 	basePolicy := func(allowBad bool) *PolicySpec {
 		p := &PolicySpec{Filters: []string{"upper", "lower", "default", "join", "escape", "length", "okf"},
-			Functions: []string{"okfn", "range", "parent", "mac", "dm", "am"}}
+			Functions: []string{"okfn", "range", "parent", "mac", "dm", "am", "ok"}}
 		if allowBad {
 			p.Filters = append(p.Filters, "bad")
 			p.Functions = append(p.Functions, "badfn")
@@ -179,6 +186,34 @@ func runC06(e *Env) error {
 						return nil
 					}
 				}
+			}
+		}
+	}
+	// a policy that is not an exact-name allow-list (here: a deny-list) and names written in another letter case: the
+	// callback registered as "bad" is forbidden, so no spelling may reach it from inside the sandbox
+	for _, pos := range []string{"{{ x|Bad }}", "{{ x|BAD|upper }}", "{{ x|upper|bAd }}", "{% for c in xs|Bad %}{{ c }}{% endfor %}", "{% apply BAD %}b{% endapply %}", "{{ nul|default(x|Bad) }}",
+		"{{ Badfn() }}", "{{ BADFN()|upper }}", "{{ okfn(Badfn()) }}", "{{ x|bad }}", "{{ badfn() }}", "{% if x|bad %}y{% endif %}"} {
+		var spies []string
+		res := guarded(func() (string, error) {
+			eng := twig.New()
+			eng.AddFilter("bad", func(v interface{}, a ...interface{}) (interface{}, error) {
+				spies = append(spies, "bad")
+				return v, nil
+			})
+			eng.AddFunction("badfn", func(a ...interface{}) (interface{}, error) { spies = append(spies, "badfn"); return "r", nil })
+			eng.AddFunction("okfn", func(a ...interface{}) (interface{}, error) { return "ok", nil })
+			eng.RegisterString("main", "{{ x|bad }}{% include 'box' sandboxed %}")
+			eng.RegisterString("box", pos)
+			eng.EnableSandbox(&c06DenyPolicy{filters: map[string]bool{"bad": true}, functions: map[string]bool{"badfn": true}})
+			return eng.Render("main", ctx)
+		})
+		r.Seen("denylist:"+pos, true)
+		r.Hit("deny-list-policy")
+		if len(spies) != 1 || res.Class == "panic" || res.Class == "timeout" {
+			if r.Violate(Violation{Key: "sandbox-escape", What: fmt.Sprintf("deny-list policy, sandboxed template %q: the forbidden callback ran %d time(s) inside the sandbox (class %q, output %q)", pos, len(spies)-1, res.Class, res.Out),
+				Broken: "theorem C06_confinement (implementation-only oracle: a policy is asked about the callback that actually runs)",
+				Replay: map[string]any{"kind": "deny-list", "box": pos, "spies": spies, "class": res.Class, "out": res.Out, "err": fmt.Sprint(res.Err)}}) {
+				return nil
 			}
 		}
 	}
@@ -272,3 +307,10 @@ func runC06(e *Env) error {
 	r.Sample(map[string]any{"main": "{% include 'box' sandboxed %}", "box": "{% extends 'layout' %}{% block c %}<{{ parent() }}>{% endblock %}", "layout": "[{% block c %}{{ x|bad|upper }}{% endblock %}]", "policy": "filters upper,lower,…; bad forbidden"})
 	return nil
 }
+
+// c06DenyPolicy allows everything except the listed names (exact spelling), unlike the default allow-list policy.
+type c06DenyPolicy struct{ filters, functions map[string]bool }
+
+func (p *c06DenyPolicy) IsFunctionAllowed(f string) bool { return !p.functions[f] }
+func (p *c06DenyPolicy) IsFilterAllowed(f string) bool   { return !p.filters[f] }
+func (p *c06DenyPolicy) IsTagAllowed(string) bool        { return true }
